@@ -2,7 +2,7 @@ HOOKS = {
     "guard": "verif",
     "enable": "go build -tags verif (the harness module /verif/harness replaces github.com/benoitkugler/webrender by /repo)",
     "baseline_off_cmd": "bin/baseline_off",
-    "source_commits": ["38cf8a4"],
+    "source_commits": ["38cf8a4", "de761b4"],
     "add_only": True,
 }
 ENGINES = [
